@@ -25,15 +25,14 @@
 #define XR_DATA_CAP 65535                      /* sizeof(((struct xfwd *)0)->data) */
 #define XS xv_src
 #define XD (1 - xv_src)
-#define XR_U8(p) ((const uint8_t *)(p))
 
 /* ghost constants (never assigned): bytes of data[] at the ghost indices xv_j, xv_k on entry */
-uint8_t xv_g_dj, xv_g_dk;
+char xv_g_dj, xv_g_dk;
 
 /* ---- shape ---------------------------------------------------------------------------------------------------------- */
 /* the direction's two legs are the two sockets of the table, crosswise; its callback is the caller's (env) */
 #define XF_WIRED(r) ((xv_src == 0 || xv_src == 1) && (r)->src_conn == XV_CONN(XS) && (r)->dst_conn == XV_CONN(XD) && \
-                     (r)->err_cb == xv_fwd_cb && (r)->err_cb_data == (void *)(r))
+                     (r)->err_cb == xv_fwd_cb && (xv_cb_frees ==> __CPROVER_is_freeable((r)->err_cb_data)))
 /* both sockets are open, non-blocking connection sockets with their own descriptor; the relay has not been terminated */
 #define XV_LEG_LIVE(i) (!xv_legs[i].closed && !xv_legs[i].blocking && xv_legs[i].fd >= 0)
 #define XV_LEGS_LIVE (XV_LEG_LIVE(0) && XV_LEG_LIVE(1) && xv_legs[0].fd != xv_legs[1].fd && !xv_terminated)
@@ -64,12 +63,18 @@ uint8_t xv_g_dj, xv_g_dk;
 /* what a running direction looks like between two steps */
 #define XF_RUNNING_INV(r) ((r)->running && XF_EV_OK(r) && XF_INTEREST(r) && XF_MIRROR(r) && xv_ev_pending >= 2)
 
-#define XF_FRESH(r) __CPROVER_is_fresh((r), sizeof(struct xfwd))
-#define XF_CONDS_FRESH(r) (__CPROVER_is_fresh((r)->src_condition, sizeof(int)) && __CPROVER_is_fresh((r)->dst_condition, sizeof(int)))
+/* The objects are supplied by the harness (XV_RELAY_SETUP in harness/relay/_unit.h): a malloc'ed `struct xrelay`, the xfwd
+ * under proof being its fwd0 or fwd1 and the two condition words its cond0/cond1 -- the embedding xrelay_create() builds
+ * (job relay.xrelay_create) -- with ARBITRARY content.  The harness also points the ghost xv_own_data at the xfwd's hold
+ * buffer, through which the environment observes bytes (a `char (*)[65535]`: an access through a void pointer at a ghost
+ * offset into a 66 KB struct costs CBMC a 66K-way multiplexer over the whole struct, twice). */
+#define XF_FRESH(r) (__CPROVER_rw_ok((r), sizeof(struct xfwd)) && xv_own_data == &(r)->data)
+#define XF_CONDS_FRESH(r) (__CPROVER_rw_ok((r)->src_condition, sizeof(int)) && __CPROVER_rw_ok((r)->dst_condition, sizeof(int)) && \
+                           (r)->src_condition != (r)->dst_condition)
 
 /* data[] content bound to the ghost constants on entry, for the two ghost indices */
-#define XF_BIND(r) ((xv_j >= 0 && xv_j < (long)(r)->data_len) ==> XR_U8((r)->data)[xv_j] == xv_g_dj) && \
-                   ((xv_k >= 0 && xv_k < (long)(r)->data_len) ==> XR_U8((r)->data)[xv_k] == xv_g_dk)
+#define XF_BIND(r) ((xv_j >= 0 && xv_j < (long)(r)->data_len) ==> (r)->data[xv_j] == xv_g_dj) && \
+                   ((xv_k >= 0 && xv_k < (long)(r)->data_len) ==> (r)->data[xv_k] == xv_g_dk)
 
 /* assigns fragments */
 #define XF_COND_ASSIGNS(r) *(r)->src_condition, *(r)->dst_condition, xv_legs[0].cond, xv_legs[1].cond, xv_aw_calls
@@ -89,22 +94,22 @@ uint8_t xv_g_dj, xv_g_dk;
 /* The only two places where the caller's callback is invoked.  CBMC resolves `relay->err_cb(...)` to every address-taken
  * function of a compatible type (xfwd_active among them: recursion), so the other jobs REPLACE these two one-liners by
  * their contracts and jobs relay.xfwd_handle_term / relay.xfwd_handle_err prove the contracts on the real bodies. */
-#define XF_CB_REQUIRES(r) (XF_FRESH(r) && (r)->err_cb == xv_fwd_cb && (r)->err_cb_data == (void *)(r) && XV_RCNT_OK(xv_fcb_calls))
+#define XF_CB_REQUIRES(r) (XF_FRESH(r) && (r)->err_cb == xv_fwd_cb && (xv_cb_frees ==> __CPROVER_is_freeable((r)->err_cb_data)) && XV_RCNT_OK(xv_fcb_calls))
 static void xfwd_handle_term(struct xfwd *relay)
 __CPROVER_requires(XF_CB_REQUIRES(relay))
 __CPROVER_assigns(XF_CB_ASSIGNS)
-__CPROVER_frees(relay)
+__CPROVER_frees(relay->err_cb_data)
 /* PO[C20] xfwd_handle_term.callback_once */
 __CPROVER_ensures(XF_CB_ONCE(relay, 0) && xv_fcb_msg == NULL)
-__CPROVER_ensures(xv_cb_frees == __CPROVER_was_freed(relay))
+__CPROVER_ensures(xv_cb_frees ==> __CPROVER_was_freed(__CPROVER_old(relay->err_cb_data)))
 ;
 static void xfwd_handle_err(struct xfwd *relay, const char *msg)
 __CPROVER_requires(XF_CB_REQUIRES(relay))
 __CPROVER_assigns(XF_CB_ASSIGNS)
-__CPROVER_frees(relay)
+__CPROVER_frees(relay->err_cb_data)
 /* PO[C20] xfwd_handle_err.callback_once */
 __CPROVER_ensures(XF_CB_ONCE(relay, -1) && xv_fcb_msg == msg)
-__CPROVER_ensures(xv_cb_frees == __CPROVER_was_freed(relay))
+__CPROVER_ensures(xv_cb_frees ==> __CPROVER_was_freed(__CPROVER_old(relay->err_cb_data)))
 ;
 
 /* ==== xfwd_await_input / xfwd_await_output ============================================================================ */
@@ -145,7 +150,7 @@ __CPROVER_ensures(xv_aw_calls == __CPROVER_old(xv_aw_calls) + 2 && XV_COND_VALID
 #define XF_RECEIVE_GOT(r) \
     /* what was received is what is held, unmodified: length and every byte (xv_j) */ \
     (RCV_GOT ==> (XF_NO_CB && (r)->data_len == xv_rcv_ret && (r)->data_len <= XR_DATA_CAP && \
-                  ((xv_j >= 0 && xv_j < (long)xv_rcv_ret) ==> XR_U8((r)->data)[xv_j] == xv_rcv_c)))
+                  ((xv_j >= 0 && xv_j < (long)xv_rcv_ret) ==> (r)->data[xv_j] == xv_rcv_c)))
 #define XF_RECEIVE_GOT_INTEREST(r) \
     (RCV_GOT ==> (XF_AWAIT_OUT && XF_MIRROR(r) && XV_COND_VALID && xv_aw_calls == __CPROVER_old(xv_aw_calls) + 2))
 #define XF_RECEIVE_AGAIN(r) \
@@ -162,7 +167,7 @@ __CPROVER_requires(XF_WIRED(relay) && XV_LEGS_LIVE && XV_COND_VALID && XF_MIRROR
 /* called only when nothing is held (see xfwd_active.dispatch) */
 __CPROVER_requires(relay->data_len == 0 && XF_INTEREST(relay))
 __CPROVER_assigns(xv_errno, XF_RCV_ASSIGNS, XF_CB_ASSIGNS, XF_COND_ASSIGNS(relay), relay->data_len, __CPROVER_object_upto(relay->data, XR_DATA_CAP))
-__CPROVER_frees(relay)
+__CPROVER_frees(relay->err_cb_data)
 /* PO[C20] xfwd_receive.hold_one */
 __CPROVER_ensures(XF_RECEIVE_ENSURES(relay))
 /* PO[C20] xfwd_receive.held_as_received */
@@ -193,12 +198,12 @@ __CPROVER_ensures(XF_RECEIVE_TERM(relay))
     (xv_snd_ret == 0 ==> (XF_NO_CB && (r)->data_len == 0 && XF_AWAIT_IN && XF_MIRROR(r) && XV_COND_VALID))
 #define XF_SEND_AGAIN(r, oldlen) \
     /* back-pressure: nothing dropped, nothing duplicated: length, bytes and interest are what they were */ \
-    (SND_AGAIN ==> (XF_NO_CB && (r)->data_len == (oldlen) && ((xv_j >= 0 && xv_j < (long)(oldlen)) ==> XR_U8((r)->data)[xv_j] == xv_g_dj) && \
+    (SND_AGAIN ==> (XF_NO_CB && (r)->data_len == (oldlen) && ((xv_j >= 0 && xv_j < (long)(oldlen)) ==> (r)->data[xv_j] == xv_g_dj) && \
                     XF_COND_SAME && XF_SAME(*(r)->src_condition) && XF_SAME(*(r)->dst_condition)))
 #define XF_SEND_STREAM(r, oldlen) \
     /* byte stream: r bytes accepted => what is held are the old bytes [r, len) in order; all accepted => input awaited again */ \
     (xv_snd_ret > 0 ==> (XF_NO_CB && (r)->data_len == (oldlen) - xv_snd_ret && (r)->data_len >= 0 && \
-                         ((xv_j >= 0 && xv_j < (long)(r)->data_len && xv_k == xv_j + (long)xv_snd_ret) ==> XR_U8((r)->data)[xv_j] == xv_g_dk) && \
+                         ((xv_j >= 0 && xv_j < (long)(r)->data_len && xv_k == xv_j + (long)xv_snd_ret) ==> (r)->data[xv_j] == xv_g_dk) && \
                          ((r)->data_len == 0 ? (XF_AWAIT_IN && xv_aw_calls == __CPROVER_old(xv_aw_calls) + 2) : XF_COND_SAME) && XF_MIRROR(r) && XV_COND_VALID))
 #define XF_SEND_TERM(r) \
     ((SND_GONE ==> (XF_CB_ONCE(r, 0) && xv_fcb_msg == NULL)) && (SND_ERR ==> (XF_CB_ONCE(r, -1) && xv_fcb_msg != NULL)) && \
@@ -211,7 +216,7 @@ __CPROVER_requires(XF_WIRED(relay) && XV_LEGS_LIVE && XV_COND_VALID && XF_MIRROR
 __CPROVER_requires(relay->data_len >= 1 && XF_INTEREST(relay))
 __CPROVER_requires(XF_BIND(relay))
 __CPROVER_assigns(xv_errno, XF_SND_ASSIGNS, XF_CB_ASSIGNS, XF_COND_ASSIGNS(relay), relay->data_len, __CPROVER_object_upto(relay->data, XR_DATA_CAP))
-__CPROVER_frees(relay)
+__CPROVER_frees(relay->err_cb_data)
 /* PO[C20] xfwd_send.hold_one */
 __CPROVER_ensures(XF_SEND_ENSURES(relay, SND_OLDLEN))
 /* PO[C20] xfwd_send.message_forwarded_once */
